@@ -236,7 +236,7 @@ impl Check for C08 {
     }
     fn plan(&self, tier: Tier) -> Plan {
         unsafe { std::env::set_var("VERIF_TIER_INTERNAL", tier.name()) };
-        Plan { cases: tier.pick(60, 700), max_recs: tier.pick(60, 90), max_shrink_iters: 200, workers: 16 }
+        Plan { cases: tier.pick(300, 4000), max_recs: tier.pick(60, 90), max_shrink_iters: 200, workers: 16 }
     }
     fn run(&self, tape: &Tape, want_sample: bool) -> Result<CaseOut, Failure> {
         let tier = tier_of_env();
